@@ -61,6 +61,9 @@ def check_c14(tier, replay):
             if races:
                 raise MachineryError("race reports confined to harness frames:\n" + races[0][:2000])
             raise MachineryError("race driver failed:\n" + out[-3000:])
+        sp = os.path.join(outd, "race_stall.txt")
+        if os.path.exists(sp):
+            v.notes["stalled_programs"] = open(sp).read()[:3000]  # (driver watchdog: a program released after 30 s; not a verdict)
         s = json.load(open(os.path.join(outd, "race.json"))) if os.path.exists(os.path.join(outd, "race.json")) else dict(Programs=n, Methods=0, List=[])
         v.cov["evaluations"] = s["Programs"]
         v.cov["distinct_nontrivial"] = s["Programs"]
